@@ -25,6 +25,10 @@ type Case struct {
 	ModesSeed uint64   `json:"modes_seed"`
 	Modes     []string `json:"modes"` // store behaviours compared (all by default; the minimiser narrows to two)
 	NoMeta    bool     `json:"no_metamorphic,omitempty"`
+	// Warm, when set, are the variables of a run made on the same ParseResult BEFORE the
+	// compared runs (other accounts, other assets): which balances are requested is decided
+	// per run, from this run's values, not remembered from an earlier one.
+	Warm map[string]string `json:"warm_up_vars,omitempty"`
 }
 
 type ModeRun struct {
@@ -69,6 +73,13 @@ func Execute(c Case, keepTrace bool) Result {
 	}
 	if len(c.Modes) == 0 {
 		modes = append(append([]string{}, modes...), modeStaticDirect)
+	}
+	if c.Warm != nil {
+		w := c.In.Clone()
+		w.Vars = c.Warm
+		wst := store.New(w, store.Plan{Mode: store.ModeExact, MetaMode: "exact", Seed: c.ModesSeed})
+		wo := exec.Run(context.Background(), p.PR, exec.CopyVars(w), wst, exec.Flags(w))
+		tr.Add("[warm-up with other variables] outcome %s", wo.Canon())
 	}
 	for _, m := range modes {
 		if m == modeStaticDirect {
@@ -192,8 +203,45 @@ func bias(r *rand.Rand, p *gen.Profile) {
 	p.PWrongAsset = 0
 }
 
+// warmVars: the case's plain variables with other accounts and other assets.
+func warmVars(r *rand.Rand, g *gen.G) map[string]string {
+	out := map[string]string{}
+	for k, v := range g.In.Vars {
+		out[k] = v
+	}
+	other := func(asset string) string {
+		for {
+			if a := gen.AssetPool[r.IntN(len(gen.AssetPool))]; a != asset {
+				return a
+			}
+		}
+	}
+	for _, v := range g.Prog.Vars {
+		cur, ok := out[v.Name]
+		if v.Fn != "" || !ok {
+			continue
+		}
+		switch v.Type {
+		case "account":
+			out[v.Name] = g.Accts[r.IntN(len(g.Accts))]
+		case "asset":
+			out[v.Name] = other(cur)
+		case "monetary":
+			if parts := strings.SplitN(cur, " ", 2); len(parts) == 2 {
+				out[v.Name] = other(parts[0]) + " " + parts[1]
+			}
+		}
+	}
+	return out
+}
+
 func candidates(c Case) []Case {
 	var out []Case
+	if c.Warm != nil {
+		n := c
+		n.Warm = nil
+		out = append(out, n)
+	}
 	// narrow to the two differing modes first
 	if len(c.Modes) == 0 || len(c.Modes) > 2 {
 		ms := c.Modes
@@ -226,6 +274,9 @@ func Worker(o core.WorkerOpts) *core.Report {
 		bias(r, &prof)
 		g := gen.Generate(r, prof)
 		c := Case{PI: gen.PI{Prog: g.Prog, In: g.In}, ModesSeed: r.Uint64()}
+		if r.IntN(5) == 0 {
+			c.Warm = warmVars(r, g)
+		}
 		res := Execute(c, false)
 		l.NoteTrace(res.Trace.Hash())
 		if !res.InDomain {
